@@ -464,7 +464,36 @@ def r08_8(ctx, rid="R08.8"):
     ctx.run_rule(rid, "tree iterators lose no sibling", body, floor=3)
 
 
+def r08_9(ctx):
+    """common_prefix_char_size counts characters: its result is applied with the character-based helper, never
+    used as a byte offset (a byte slice cuts a multi-byte character, or too early)."""
+    F = ctx.facts
+
+    def body(r):
+        n = 0
+        is_cut = lambda x: x[0] == "call" and x[1] == "regex_radix_tree::prefix::common_prefix_char_size"
+        for f in F.fn_list:
+            if f.derived or not f.file.startswith("src/regex_radix_tree/"):
+                continue
+            pv = None
+            for bi, t_, cal in f.calls():
+                if cal is None:
+                    continue
+                pv = pv or Prov(f, copies=True)
+                args = [pv.operand(a) for a in t_["args"]]
+                if not any(mentions(a, is_cut) for a in args):
+                    continue
+                n += 1
+                byte_use = (cal.name in ("index", "index_mut", "get", "get_mut", "split_at", "truncate", "split_off", "drain", "is_char_boundary") and not cal.local) or \
+                    any(a[0] == "agg" and (a[1] or "").startswith("std::ops::Range") for a in args)
+                r.ob("cut-in-characters:%s:%s" % (f.key.rsplit("::", 2)[-2] + "::" + f.name, cal.name), not byte_use, f.loc(span_line(t_["s"])),
+                     "the character count is handed to %s" % cal.name if not byte_use else "the character count returned by common_prefix_char_size is used as a byte offset (%s): wrong for patterns with multi-byte characters" % cal.name)
+        r.ob("cut-in-characters:uses", n >= 2, "", "%d uses of the cut length" % n)
+    ctx.run_rule("R08.9", "the prefix cut is applied in characters", body, floor=3)
+
+
 def run(ctx):
+    r08_9(ctx)
     r08_8(ctx)
     r08_7(ctx)
     r08_1(ctx)
